@@ -107,6 +107,26 @@ func init() {
 			s.Begin(allHdr)
 			s.expect(OK(s.CallC(5, a2, nil, "1000", cgas)), "A' runs: the funded account keeps its balance plus 1")
 			s.End()
+			// an account that has SENT native transactions is touched only inside the reverted inner call of a transaction
+			// that succeeds as a whole: its nonce and balance stay what the native ledger says, its old transaction stays spent
+			user := s.R.KR.Addr(6)
+			s.Begin(allHdr)
+			s.expect(OK(s.Transfer(6, 5, "1e18")), "a6 uses nonce 0 natively")
+			old := s.Sc.Ops[len(s.Sc.Ops)-1]
+			s.expect(OK(s.Transfer(6, 5, "2e18")), "and nonce 1")
+			ev, b3 := s.Deploy(4, prog("touch_and_revert", map[string][]byte{"fresh": user}), 0, "0", cgas)
+			s.expect(OK(ev), "deploy B'' (touches a6, then reverts)")
+			ev, a3 := s.Deploy(4, prog("nested_quiet", map[string][]byte{"callee": b3}), 0, "0", cgas)
+			s.expect(OK(ev), "deploy A'' (calls B'', ignores the revert, touches nothing else)")
+			s.End()
+			s.Begin(allHdr)
+			s.expect(OK(s.CallC(5, a3, nil, "1000", cgas)), "A'' runs")
+			s.expect(!OK(s.DeliverRaw(unhex(old.Tx), "valid", "replay:transfer")), "a6's spent transaction stays spent")
+			s.expect(OK(s.Transfer(6, 5, "1e18")), "a6 goes on with nonce 2")
+			s.End()
+			s.Begin(allHdr)
+			s.expect(!OK(s.DeliverRaw(unhex(old.Tx), "valid", "replay:transfer")), "also in a later block")
+			s.End()
 			s.Blocks(1, allHdr)
 		}},
 		Directed{"evm_selfdestruct", []string{"C17", "C02"}, fam(0), func(s *Script) {
